@@ -459,3 +459,412 @@ Proof.
 Qed.
 End Main.
 End Block4.
+
+(* ------------------------------------------------------------------ *)
+(* corollaries: shape, all-Cartesian block, "Cartesian block transformed" *)
+(* ------------------------------------------------------------------ *)
+Section Block4Cor.
+Context {F : Type} (K : Fops F).
+Context {A : Type} (azero : A) (aadd : A -> A -> A) (ascale : F -> A -> A).
+Notation R4 := (list (list (list (list A)))).
+Variables t1 t2 t3 t4 : bool.
+Variables s1 s2 s3 s4 : @sh F.
+Variable blk : list (list (list (list R4))).
+Variables M1 L1 M2 L2 M3 L3 M4 L4 : nat.
+Hypothesis N1 : nsh M1 L1 (sh_n s1).
+Hypothesis N2 : nsh M2 L2 (sh_n s2).
+Hypothesis N3 : nsh M3 L3 (sh_n s3).
+Hypothesis N4 : nsh M4 L4 (sh_n s4).
+Hypothesis HB : sh8 M1 L1 M2 L2 M3 L3 M4 L4 blk.
+Hypothesis HT1 : t1 = true -> Forall (fun r => length r = L1) (sh_T s1).
+Hypothesis HT2 : t2 = true -> Forall (fun r => length r = L2) (sh_T s2).
+Hypothesis HT3 : t3 = true -> Forall (fun r => length r = L3) (sh_T s3).
+Hypothesis HT4 : t4 = true -> Forall (fun r => length r = L4) (sh_T s4).
+
+Notation O1 := (osz t1 (sh_T s1) L1).
+Notation O2 := (osz t2 (sh_T s2) L2).
+Notation O3 := (osz t3 (sh_T s3) L3).
+Notation O4 := (osz t4 (sh_T s4) L4).
+Notation Bmix := (block4 azero aadd ascale t1 t2 t3 t4 s1 s2 s3 s4 blk).
+Notation Bcart := (block4 azero aadd ascale false false false false s1 s2 s3 s4 blk).
+
+Theorem block4_shape :
+  lshape (lshape (lshape (lshape (fun _ : A => True) (M4 * O4)) (M3 * O3)) (M2 * O2)) (M1 * O1) Bmix.
+Proof. exact (proj1 (block4_spec K azero aadd ascale t1 t2 t3 t4 s1 s2 s3 s4 blk _ _ _ _ _ _ _ _ N1 N2 N3 N4 HB HT1 HT2 HT3 HT4)). Qed.
+
+Theorem block4_entry m1 q1 m2 q2 m3 q3 m4 q4 :
+  m1 < M1 -> q1 < O1 -> m2 < M2 -> q2 < O2 -> m3 < M3 -> q3 < O3 -> m4 < M4 -> q4 < O4 ->
+  Assembly14.get4 azero Bmix (m1 * O1 + q1) (m2 * O2 + q2) (m3 * O3 + q3) (m4 * O4 + q4)
+  = tsum K azero aadd ascale t1 (sh_T s1) L1 q1 (fun c1 =>
+    tsum K azero aadd ascale t2 (sh_T s2) L2 q2 (fun c2 =>
+    tsum K azero aadd ascale t3 (sh_T s3) L3 q3 (fun c3 =>
+    tsum K azero aadd ascale t4 (sh_T s4) L4 q4 (fun c4 =>
+      nrm8 K azero ascale s1 s2 s3 s4 blk m1 c1 m2 c2 m3 c3 m4 c4)))).
+Proof. exact (proj2 (block4_spec K azero aadd ascale t1 t2 t3 t4 s1 s2 s3 s4 blk _ _ _ _ _ _ _ _ N1 N2 N3 N4 HB HT1 HT2 HT3 HT4) m1 q1 m2 q2 m3 q3 m4 q4). Qed.
+
+(* the all-Cartesian processed block: only the norms *)
+Theorem block4_cart_entry m1 c1 m2 c2 m3 c3 m4 c4 :
+  m1 < M1 -> c1 < L1 -> m2 < M2 -> c2 < L2 -> m3 < M3 -> c3 < L3 -> m4 < M4 -> c4 < L4 ->
+  Assembly14.get4 azero Bcart (m1 * L1 + c1) (m2 * L2 + c2) (m3 * L3 + c3) (m4 * L4 + c4)
+  = nrm8 K azero ascale s1 s2 s3 s4 blk m1 c1 m2 c2 m3 c3 m4 c4.
+Proof.
+  exact (proj2 (block4_spec K azero aadd ascale false false false false s1 s2 s3 s4 blk _ _ _ _ _ _ _ _ N1 N2 N3 N4 HB
+                  (fun E => False_ind _ (Bool.diff_false_true E)) (fun E => False_ind _ (Bool.diff_false_true E))
+                  (fun E => False_ind _ (Bool.diff_false_true E)) (fun E => False_ind _ (Bool.diff_false_true E)))
+               m1 c1 m2 c2 m3 c3 m4 c4).
+Qed.
+
+Theorem block4_cart_shape :
+  lshape (lshape (lshape (lshape (fun _ : A => True) (M4 * L4)) (M3 * L3)) (M2 * L2)) (M1 * L1) Bcart.
+Proof.
+  exact (proj1 (block4_spec K azero aadd ascale false false false false s1 s2 s3 s4 blk _ _ _ _ _ _ _ _ N1 N2 N3 N4 HB
+                  (fun E => False_ind _ (Bool.diff_false_true E)) (fun E => False_ind _ (Bool.diff_false_true E))
+                  (fun E => False_ind _ (Bool.diff_false_true E)) (fun E => False_ind _ (Bool.diff_false_true E)))).
+Qed.
+
+(* EVERY entry of the mixed block is T_s1 (x) T_s2 (x) T_s3 (x) T_s4 applied to the all-Cartesian block *)
+Theorem block4_is_cart_transformed m1 q1 m2 q2 m3 q3 m4 q4 :
+  m1 < M1 -> q1 < O1 -> m2 < M2 -> q2 < O2 -> m3 < M3 -> q3 < O3 -> m4 < M4 -> q4 < O4 ->
+  Assembly14.get4 azero Bmix (m1 * O1 + q1) (m2 * O2 + q2) (m3 * O3 + q3) (m4 * O4 + q4)
+  = tsum K azero aadd ascale t1 (sh_T s1) L1 q1 (fun c1 =>
+    tsum K azero aadd ascale t2 (sh_T s2) L2 q2 (fun c2 =>
+    tsum K azero aadd ascale t3 (sh_T s3) L3 q3 (fun c3 =>
+    tsum K azero aadd ascale t4 (sh_T s4) L4 q4 (fun c4 =>
+      Assembly14.get4 azero Bcart (m1 * L1 + c1) (m2 * L2 + c2) (m3 * L3 + c3) (m4 * L4 + c4))))).
+Proof.
+  intros Hm1 Hq1 Hm2 Hq2 Hm3 Hq3 Hm4 Hq4. rewrite block4_entry by assumption.
+  apply tsum_ext; [|exact (osz_bound _ _ _ _ Hq1)]. intros c1 Hc1.
+  apply tsum_ext; [|exact (osz_bound _ _ _ _ Hq2)]. intros c2 Hc2.
+  apply tsum_ext; [|exact (osz_bound _ _ _ _ Hq3)]. intros c3 Hc3.
+  apply tsum_ext; [|exact (osz_bound _ _ _ _ Hq4)]. intros c4 Hc4.
+  symmetry. now apply block4_cart_entry.
+Qed.
+End Block4Cor.
+
+(* the all-Cartesian block does not look at the transformations *)
+Lemma block4_cart_ext {F A} (azero : A) aadd (ascale : F -> A -> A) (s1 s2 s3 s4 s1' s2' s3' s4' : @sh F) blk :
+  sh_n s1 = sh_n s1' -> sh_n s2 = sh_n s2' -> sh_n s3 = sh_n s3' -> sh_n s4 = sh_n s4' ->
+  block4 azero aadd ascale false false false false s1 s2 s3 s4 blk
+  = block4 azero aadd ascale false false false false s1' s2' s3' s4' blk.
+Proof. intros E1 E2 E3 E4. unfold block4, axis_width, axis_tr. cbv zeta. now rewrite E1, E2, E3, E4. Qed.
+
+(* ------------------------------------------------------------------ *)
+(* over a field: one quadruple sum, independent of the order of the contractions *)
+(* ------------------------------------------------------------------ *)
+From Coq Require Import Field.
+From GB Require Import Proofs.AssembledSphOverlapP.
+
+Section Block4Field.
+Context {F : Type} (K : Fops F) (Kf : is_field K).
+Add Field KFb4 : Kf.
+Local Open Scope F_scope.
+Notation "0" := (f0 K) : F_scope.
+Notation "1" := (f1 K) : F_scope.
+Infix "+" := (fadd K) : F_scope.
+Infix "*" := (fmul K) : F_scope.
+Notation fsum := (FNum.fsum K).
+Notation tsumF := (tsum K 0 (fadd K) (fmul K)).
+
+(* the matrix acting on one index: T for a spherical shell, the identity for a Cartesian one *)
+Definition ucoef (sph : bool) (T : list (list F)) (q c : nat) : F :=
+  if sph then nth c (nth q T []) 0 else if Nat.eqb q c then 1 else 0.
+
+Lemma tsum_ucoef sph T L q (f : nat -> F) : (sph = false -> (q < L)%nat) ->
+  tsumF sph T L q f = fsum (mk L (fun c => ucoef sph T q c * f c)).
+Proof.
+  intros Hq. unfold tsum, ucoef. destruct sph; [reflexivity|].
+  symmetry. apply (fsum_delta K Kf). now apply Hq.
+Qed.
+
+Definition qsum4 (L1 L2 L3 L4 : nat) (g : nat -> nat -> nat -> nat -> F) : F :=
+  fsum (mk L1 (fun c1 => fsum (mk L2 (fun c2 => fsum (mk L3 (fun c3 => fsum (mk L4 (fun c4 => g c1 c2 c3 c4)))))))).
+
+Lemma qsum4_ext L1 L2 L3 L4 g h :
+  (forall c1 c2 c3 c4, (c1 < L1)%nat -> (c2 < L2)%nat -> (c3 < L3)%nat -> (c4 < L4)%nat -> g c1 c2 c3 c4 = h c1 c2 c3 c4) ->
+  qsum4 L1 L2 L3 L4 g = qsum4 L1 L2 L3 L4 h.
+Proof.
+  intros H. unfold qsum4. apply fsum_mk_ext; intros c1 H1. apply fsum_mk_ext; intros c2 H2.
+  apply fsum_mk_ext; intros c3 H3. apply fsum_mk_ext; intros c4 H4. now apply H.
+Qed.
+
+(* exchange of adjacent summations: every order of the four contractions gives the same number *)
+Lemma qsum4_swap12 L1 L2 L3 L4 g :
+  qsum4 L1 L2 L3 L4 g = qsum4 L2 L1 L3 L4 (fun c2 c1 c3 c4 => g c1 c2 c3 c4).
+Proof. unfold qsum4. apply (fsum_mk_swap K Kf). Qed.
+Lemma qsum4_swap23 L1 L2 L3 L4 g :
+  qsum4 L1 L2 L3 L4 g = qsum4 L1 L3 L2 L4 (fun c1 c3 c2 c4 => g c1 c2 c3 c4).
+Proof. unfold qsum4. apply fsum_mk_ext; intros c1 _. apply (fsum_mk_swap K Kf). Qed.
+Lemma qsum4_swap34 L1 L2 L3 L4 g :
+  qsum4 L1 L2 L3 L4 g = qsum4 L1 L2 L4 L3 (fun c1 c2 c4 c3 => g c1 c2 c3 c4).
+Proof. unfold qsum4. apply fsum_mk_ext; intros c1 _. apply fsum_mk_ext; intros c2 _. apply (fsum_mk_swap K Kf). Qed.
+
+Lemma tsum4_qsum t1 t2 t3 t4 T1 T2 T3 T4 L1 L2 L3 L4 q1 q2 q3 q4 (X : nat -> nat -> nat -> nat -> F) :
+  (t1 = false -> (q1 < L1)%nat) -> (t2 = false -> (q2 < L2)%nat) ->
+  (t3 = false -> (q3 < L3)%nat) -> (t4 = false -> (q4 < L4)%nat) ->
+  tsumF t1 T1 L1 q1 (fun c1 => tsumF t2 T2 L2 q2 (fun c2 => tsumF t3 T3 L3 q3 (fun c3 =>
+    tsumF t4 T4 L4 q4 (fun c4 => X c1 c2 c3 c4))))
+  = qsum4 L1 L2 L3 L4 (fun c1 c2 c3 c4 =>
+      ucoef t1 T1 q1 c1 * ucoef t2 T2 q2 c2 * ucoef t3 T3 q3 c3 * ucoef t4 T4 q4 c4 * X c1 c2 c3 c4).
+Proof.
+  intros H1 H2 H3 H4. unfold qsum4.
+  rewrite tsum_ucoef by exact H1. apply fsum_mk_ext; intros c1 _.
+  rewrite tsum_ucoef by exact H2. rewrite (fsum_mk_scale_l K Kf). apply fsum_mk_ext; intros c2 _.
+  rewrite tsum_ucoef by exact H3.
+  transitivity ((ucoef t1 T1 q1 c1 * ucoef t2 T2 q2 c2) * fsum (mk L3 (fun c3 =>
+                  ucoef t3 T3 q3 c3 * tsumF t4 T4 L4 q4 (fun c4 => X c1 c2 c3 c4)))); [ring|].
+  rewrite (fsum_mk_scale_l K Kf). apply fsum_mk_ext; intros c3 _.
+  rewrite tsum_ucoef by exact H4.
+  transitivity ((ucoef t1 T1 q1 c1 * ucoef t2 T2 q2 c2 * ucoef t3 T3 q3 c3) * fsum (mk L4 (fun c4 =>
+                  ucoef t4 T4 q4 c4 * X c1 c2 c3 c4))); [ring|].
+  rewrite (fsum_mk_scale_l K Kf). apply fsum_mk_ext; intros c4 _. ring.
+Qed.
+
+Section Q.
+Variables t1 t2 t3 t4 : bool.
+Variables s1 s2 s3 s4 : @sh F.
+Variable blk : list (list (list (list (list (list (list (list F))))))).
+Variables M1 L1 M2 L2 M3 L3 M4 L4 : nat.
+Hypothesis N1 : nsh M1 L1 (sh_n s1).
+Hypothesis N2 : nsh M2 L2 (sh_n s2).
+Hypothesis N3 : nsh M3 L3 (sh_n s3).
+Hypothesis N4 : nsh M4 L4 (sh_n s4).
+Hypothesis HB : sh8 M1 L1 M2 L2 M3 L3 M4 L4 blk.
+Hypothesis HT1 : t1 = true -> Forall (fun r => length r = L1) (sh_T s1).
+Hypothesis HT2 : t2 = true -> Forall (fun r => length r = L2) (sh_T s2).
+Hypothesis HT3 : t3 = true -> Forall (fun r => length r = L3) (sh_T s3).
+Hypothesis HT4 : t4 = true -> Forall (fun r => length r = L4) (sh_T s4).
+Notation O1 := (osz t1 (sh_T s1) L1).
+Notation O2 := (osz t2 (sh_T s2) L2).
+Notation O3 := (osz t3 (sh_T s3) L3).
+Notation O4 := (osz t4 (sh_T s4) L4).
+
+Theorem block4_quadruple_sum m1 q1 m2 q2 m3 q3 m4 q4 :
+  (m1 < M1)%nat -> (q1 < O1)%nat -> (m2 < M2)%nat -> (q2 < O2)%nat ->
+  (m3 < M3)%nat -> (q3 < O3)%nat -> (m4 < M4)%nat -> (q4 < O4)%nat ->
+  Assembly14.get4 0 (block4 0 (fadd K) (fmul K) t1 t2 t3 t4 s1 s2 s3 s4 blk)
+    (m1 * O1 + q1) (m2 * O2 + q2) (m3 * O3 + q3) (m4 * O4 + q4)
+  = qsum4 L1 L2 L3 L4 (fun c1 c2 c3 c4 =>
+      ucoef t1 (sh_T s1) q1 c1 * ucoef t2 (sh_T s2) q2 c2 * ucoef t3 (sh_T s3) q3 c3 * ucoef t4 (sh_T s4) q4 c4
+      * Assembly14.get4 0 (block4 0 (fadd K) (fmul K) false false false false s1 s2 s3 s4 blk)
+          (m1 * L1 + c1) (m2 * L2 + c2) (m3 * L3 + c3) (m4 * L4 + c4)).
+Proof.
+  intros Hm1 Hq1 Hm2 Hq2 Hm3 Hq3 Hm4 Hq4.
+  rewrite (block4_is_cart_transformed K 0 (fadd K) (fmul K) t1 t2 t3 t4 s1 s2 s3 s4 blk
+             M1 L1 M2 L2 M3 L3 M4 L4 N1 N2 N3 N4 HB HT1 HT2 HT3 HT4) by assumption.
+  apply tsum4_qsum; [exact (osz_bound _ _ _ _ Hq1)|exact (osz_bound _ _ _ _ Hq2)|exact (osz_bound _ _ _ _ Hq3)|exact (osz_bound _ _ _ _ Hq4)].
+Qed.
+End Q.
+End Block4Field.
+
+(* ------------------------------------------------------------------ *)
+(* the assembled four-index array (Assembly14.four_symm, OneBody.eri_integral) *)
+(* ------------------------------------------------------------------ *)
+From GB Require Import Model.Spherical Model.Overlap Model.TwoElec Model.OneBody Proofs.PermP Proofs.EriStructP.
+
+Lemma off_offs w i : off w i = offs w i.
+Proof. induction i as [|i IH]; cbn [off offs]; congruence. Qed.
+
+Lemma lshape4_shp4 {A} w1 w2 w3 w4 (m : list (list (list (list A)))) :
+  lshape (lshape (lshape (lshape (fun _ : A => True) w4) w3) w2) w1 m -> shp4 w1 w2 w3 w4 m.
+Proof.
+  unfold shp4, shp3, shp2, shp1. intros H.
+  refine (lshape_impl _ _ _ _ _ H). intros x3. refine (lshape_impl _ _ _ _ _). intros x2.
+  refine (lshape_impl _ _ _ _ _). intros x1 [H1 _]. exact H1.
+Qed.
+
+Section FourAsm.
+Context {F : Type} (K : Fops F).
+Context {A : Type} (azero : A) (aadd : A -> A -> A) (ascale : F -> A -> A).
+Notation R4 := (list (list (list (list A)))).
+Variable ss : list (@sh F).
+Variable bf : nat -> nat -> nat -> nat -> list (list (list (list R4))).
+Variables Mf Lf : nat -> nat.          (* segments / Cartesian components of shell k *)
+Let n := length ss.
+Let dsh : @sh F := mkSh false [] [].
+Let s_ k := nth k ss dsh.
+Hypothesis HN : forall k, k < n -> nsh (Mf k) (Lf k) (sh_n (s_ k)).
+Hypothesis HT : forall k, k < n -> sh_sph (s_ k) = true -> Forall (fun r => length r = Lf k) (sh_T (s_ k)).
+Hypothesis HB : forall i j k l, i < n -> j < n -> k < n -> l < n ->
+  sh8 (Mf i) (Lf i) (Mf j) (Lf j) (Mf k) (Lf k) (Mf l) (Lf l) (bf i j k l).
+
+Definition Of (k : nat) : nat := osz (sh_sph (s_ k)) (sh_T (s_ k)) (Lf k).
+Definition rmix (k : nat) : nat := Mf k * Of k.
+Definition rcart (k : nat) : nat := Mf k * Lf k.
+
+Lemma B4f_mix_shape : shape4 n rmix (B4f azero aadd ascale 2 ss bf).
+Proof.
+  intros i j k l Hi Hj Hk Hl. unfold B4f. cbv zeta. apply lshape4_shp4.
+  exact (block4_shape K azero aadd ascale _ _ _ _ _ _ _ _ _ _ _ _ _ _ _ _ _
+           (HN i Hi) (HN j Hj) (HN k Hk) (HN l Hl) (HB i j k l Hi Hj Hk Hl) (HT i Hi) (HT j Hj) (HT k Hk) (HT l Hl)).
+Qed.
+
+Lemma B4f_cart_shape : shape4 n rcart (B4f azero aadd ascale 0 ss bf).
+Proof.
+  intros i j k l Hi Hj Hk Hl. unfold B4f. cbv zeta. apply lshape4_shp4.
+  exact (block4_cart_shape K azero aadd ascale _ _ _ _ _ _ _ _ _ _ _ _ _
+           (HN i Hi) (HN j Hj) (HN k Hk) (HN l Hl) (HB i j k l Hi Hj Hk Hl)).
+Qed.
+
+(* entry of the assembled array of a basis with ANY assignment of coordinate types (mode 2 = the mix path)
+   = T on each of the four indices of the assembled all-Cartesian array (mode 0 = the cartesian path).
+   The eight-fold block symmetry [sym8] of the processed blocks is the hypothesis under which the store of
+   base_four_symm.py holds the block of every quartet (Proofs/PermP.lookup_all_writes, property C11). *)
+Theorem four_symm_mix_is_cart_transformed i j k l m1 q1 m2 q2 m3 q3 m4 q4 :
+  sym8 azero n (B4f azero aadd ascale 2 ss bf) -> sym8 azero n (B4f azero aadd ascale 0 ss bf) ->
+  i < n -> j < n -> k < n -> l < n ->
+  m1 < Mf i -> q1 < Of i -> m2 < Mf j -> q2 < Of j -> m3 < Mf k -> q3 < Of k -> m4 < Mf l -> q4 < Of l ->
+  Assembly14.get4 azero (four_symm azero aadd ascale 2 ss bf)
+    (offs rmix i + (m1 * Of i + q1)) (offs rmix j + (m2 * Of j + q2))
+    (offs rmix k + (m3 * Of k + q3)) (offs rmix l + (m4 * Of l + q4))
+  = tsum K azero aadd ascale (sh_sph (s_ i)) (sh_T (s_ i)) (Lf i) q1 (fun c1 =>
+    tsum K azero aadd ascale (sh_sph (s_ j)) (sh_T (s_ j)) (Lf j) q2 (fun c2 =>
+    tsum K azero aadd ascale (sh_sph (s_ k)) (sh_T (s_ k)) (Lf k) q3 (fun c3 =>
+    tsum K azero aadd ascale (sh_sph (s_ l)) (sh_T (s_ l)) (Lf l) q4 (fun c4 =>
+      Assembly14.get4 azero (four_symm azero aadd ascale 0 ss bf)
+        (offs rcart i + (m1 * Lf i + c1)) (offs rcart j + (m2 * Lf j + c2))
+        (offs rcart k + (m3 * Lf k + c3)) (offs rcart l + (m4 * Lf l + c4)))))).
+Proof.
+  intros S2 S0 Hi Hj Hk Hl Hm1 Hq1 Hm2 Hq2 Hm3 Hq3 Hm4 Hq4.
+  rewrite (four_symm_is_concat azero aadd ascale 2 ss bf S2).
+  rewrite <- !off_offs.
+  rewrite (four_concat_entry azero n rmix _ B4f_mix_shape i j k l) by (try assumption; unfold rmix; now apply idx_lt).
+  unfold B4f at 1. cbv zeta.
+  rewrite (block4_is_cart_transformed K azero aadd ascale _ _ _ _ _ _ _ _ _ _ _ _ _ _ _ _ _
+             (HN i Hi) (HN j Hj) (HN k Hk) (HN l Hl) (HB i j k l Hi Hj Hk Hl) (HT i Hi) (HT j Hj) (HT k Hk) (HT l Hl))
+    by assumption.
+  apply tsum_ext; [|exact (osz_bound _ _ _ _ Hq1)]. intros c1 Hc1.
+  apply tsum_ext; [|exact (osz_bound _ _ _ _ Hq2)]. intros c2 Hc2.
+  apply tsum_ext; [|exact (osz_bound _ _ _ _ Hq3)]. intros c3 Hc3.
+  apply tsum_ext; [|exact (osz_bound _ _ _ _ Hq4)]. intros c4 Hc4.
+  rewrite (four_symm_is_concat azero aadd ascale 0 ss bf S0).
+  rewrite (four_concat_entry azero n rcart _ B4f_cart_shape i j k l) by (try assumption; unfold rcart; now apply idx_lt).
+  reflexivity.
+Qed.
+End FourAsm.
+
+(* ---- electron_repulsion_integral (OneBody.eri_integral), chemists' notation, no final transformation ---- *)
+Section EriAsm.
+Context {F : Type} (K : Fops F).
+Notation R4 := (list (list (list (list F)))).
+Notation "0" := (f0 K).
+Variable bs : list (shell F).
+Let n := length bs.
+Let bsc := map to_cart bs.
+Notation s_ k := (sh_at K bs k).
+Notation dsh := (mkSh (F:=F) false [] []).
+
+Lemma ess_length : length (ess K bs) = n.
+Proof. unfold ess. now rewrite !map_length. Qed.
+
+Lemma ess_nth k : k < n ->
+  nth k (ess K bs) dsh = mkSh (s_sph (s_ k)) (shell_transform K (s_ k)) (norm_cont K (s_ k)).
+Proof.
+  intros Hk. unfold ess. rewrite (PermP.nth_map_lt _ _ k (dummy_p K)) by (now rewrite map_length).
+  rewrite nth_prep by exact Hk. reflexivity.
+Qed.
+
+Lemma ebf_eq i j k l : i < n -> j < n -> k < n -> l < n ->
+  ebf K bs i j k l = eri_block K (s_ i) (s_ j) (s_ k) (s_ l).
+Proof. intros Hi Hj Hk Hl. unfold ebf. cbv zeta. now rewrite !nth_prep by assumption. Qed.
+
+Lemma norm_cont_nsh (s : shell F) : nsh (nseg s) (ncomp s) (norm_cont K s).
+Proof.
+  destruct (norm_cont_shape K s) as [HL HR]. apply (lshape_of_nth _ _ _ []); [exact HL|exact HR].
+Qed.
+
+Lemma eri_block_sh8 (a b c d : shell F) :
+  sh8 (nseg a) (ncomp a) (nseg b) (ncomp b) (nseg c) (ncomp c) (nseg d) (ncomp d) (eri_block K a b c d).
+Proof.
+  unfold sh8, L2s, lshape, eri_block, ncomp. cbv zeta.
+  split; [apply mk_length|]. apply Forall_mk'; intros m1 _.
+  split; [apply mk_length|]. apply Forall_mk'; intros i1 _.
+  split; [apply mk_length|]. apply Forall_mk'; intros m2 _.
+  split; [apply mk_length|]. apply Forall_mk'; intros i2 _.
+  split; [apply mk_length|]. apply Forall_mk'; intros m3 _.
+  split; [apply mk_length|]. apply Forall_mk'; intros i3 _.
+  split; [apply mk_length|]. apply Forall_mk'; intros m4 _.
+  split; [apply mk_length|]. apply Forall_mk'; intros i4 _. exact I.
+Qed.
+
+Let Mf k := nseg (s_ k).
+Let Lf k := ncomp (s_ k).
+
+Lemma eHN k : k < length (ess K bs) -> nsh (Mf k) (Lf k) (sh_n (nth k (ess K bs) dsh)).
+Proof. rewrite ess_length. intros Hk. rewrite ess_nth by exact Hk. apply norm_cont_nsh. Qed.
+Lemma eHT k : k < length (ess K bs) -> sh_sph (nth k (ess K bs) dsh) = true ->
+  Forall (fun r => length r = Lf k) (sh_T (nth k (ess K bs) dsh)).
+Proof. rewrite ess_length. intros Hk _. rewrite ess_nth by exact Hk. apply shell_transform_rows. Qed.
+Lemma eHB i j k l : i < length (ess K bs) -> j < length (ess K bs) -> k < length (ess K bs) -> l < length (ess K bs) ->
+  sh8 (Mf i) (Lf i) (Mf j) (Lf j) (Mf k) (Lf k) (Mf l) (Lf l) (ebf K bs i j k l).
+Proof. rewrite ess_length. intros Hi Hj Hk Hl. rewrite ebf_eq by assumption. apply eri_block_sh8. Qed.
+
+Lemma eOf k : k < n -> Of (ess K bs) Lf k = osize (s_ k).
+Proof. intros Hk. unfold Of. rewrite ess_nth by exact Hk. apply osz_shell. Qed.
+
+Lemma ermix_off k : k <= n -> offs (rmix (ess K bs) Mf Lf) k = ooff K bs k.
+Proof.
+  intros Hk. unfold ooff. apply offs_ext. intros t Ht. unfold rmix, odim. rewrite eOf by lia. reflexivity.
+Qed.
+Lemma ercart_off k : offs (rcart Mf Lf) k = boff K bs k.
+Proof. reflexivity. Qed.
+
+(* the processed block of the all-Cartesian basis is the mode-0 block of the mixed one *)
+Lemma Beri_to_cart i j k l : i < n -> j < n -> k < n -> l < n ->
+  Beri K bsc i j k l = B4f 0 (fadd K) (fmul K) 0 (ess K bs) (ebf K bs) i j k l.
+Proof.
+  intros Hi Hj Hk Hl. unfold Beri, B4f. cbv zeta.
+  assert (Ln : length bsc = n) by (unfold bsc; now rewrite map_length).
+  assert (E : forall t, t < n ->
+     nth t (ess K bsc) dsh = mkSh false (shell_transform K (to_cart (s_ t))) (norm_cont K (s_ t))).
+  { intros t Ht. unfold ess. rewrite (PermP.nth_map_lt _ _ t (dummy_p K)) by (now rewrite map_length, Ln).
+    rewrite nth_prep by (now rewrite Ln). unfold bsc. rewrite sh_at_to_cart. reflexivity. }
+  assert (EB : ebf K bsc i j k l = ebf K bs i j k l).
+  { unfold ebf. cbv zeta. rewrite !nth_prep by (rewrite ?Ln; assumption).
+    unfold bsc. rewrite !sh_at_to_cart. reflexivity. }
+  rewrite !E by assumption. cbn [sh_sph]. rewrite EB.
+  apply block4_cart_ext; rewrite ess_nth by assumption; reflexivity.
+Qed.
+
+Lemma sym8_to_cart : sym8 0 n (Beri K bsc) -> sym8 0 n (B4f 0 (fadd K) (fmul K) 0 (ess K bs) (ebf K bs)).
+Proof.
+  intros H i j k l Hi Hj Hk Hl. rewrite <- !Beri_to_cart by assumption. now apply H.
+Qed.
+
+Lemma eri_cart_is_mode0 : sym8 0 n (Beri K bsc) ->
+  eri_integral K bsc None false = four_symm 0 (fadd K) (fmul K) 0 (ess K bs) (ebf K bs).
+Proof.
+  intros H. rewrite eri_integral_chem.
+  assert (Ln : length (ess K bsc) = n) by (unfold ess, bsc; now rewrite !map_length).
+  rewrite four_symm_is_concat by (rewrite Ln; exact H).
+  rewrite (four_symm_is_concat 0 (fadd K) (fmul K) 0 (ess K bs) (ebf K bs)) by (rewrite ess_length; now apply sym8_to_cart).
+  rewrite Ln, ess_length. apply four_concat_ext. intros i j k l Hi Hj Hk Hl. now apply Beri_to_cart.
+Qed.
+
+(* EVERY entry of the ERI array of a basis with any assignment of coordinate types is T (x) T (x) T (x) T applied
+   to the ERI array of the same basis with all shells Cartesian; oidx / gidx: the output / Cartesian index maps of
+   Proofs/AssembledSphP.v / AssembledP.v *)
+Theorem eri_mixed_is_cart_transformed i j k l m1 q1 m2 q2 m3 q3 m4 q4 :
+  sym8 0 n (Beri K bs) -> sym8 0 n (Beri K bsc) ->
+  i < n -> j < n -> k < n -> l < n ->
+  m1 < nseg (s_ i) -> q1 < osize (s_ i) -> m2 < nseg (s_ j) -> q2 < osize (s_ j) ->
+  m3 < nseg (s_ k) -> q3 < osize (s_ k) -> m4 < nseg (s_ l) -> q4 < osize (s_ l) ->
+  Assembly14.get4 0 (eri_integral K bs None false)
+    (oidx K bs i m1 q1) (oidx K bs j m2 q2) (oidx K bs k m3 q3) (oidx K bs l m4 q4)
+  = tsum K 0 (fadd K) (fmul K) (s_sph (s_ i)) (shell_transform K (s_ i)) (ncomp (s_ i)) q1 (fun c1 =>
+    tsum K 0 (fadd K) (fmul K) (s_sph (s_ j)) (shell_transform K (s_ j)) (ncomp (s_ j)) q2 (fun c2 =>
+    tsum K 0 (fadd K) (fmul K) (s_sph (s_ k)) (shell_transform K (s_ k)) (ncomp (s_ k)) q3 (fun c3 =>
+    tsum K 0 (fadd K) (fmul K) (s_sph (s_ l)) (shell_transform K (s_ l)) (ncomp (s_ l)) q4 (fun c4 =>
+      Assembly14.get4 0 (eri_integral K bsc None false)
+        (gidx K bs i m1 c1) (gidx K bs j m2 c2) (gidx K bs k m3 c3) (gidx K bs l m4 c4))))).
+Proof.
+  intros S2 S0 Hi Hj Hk Hl Hm1 Hq1 Hm2 Hq2 Hm3 Hq3 Hm4 Hq4.
+  rewrite (eri_cart_is_mode0 S0). rewrite eri_integral_chem.
+  pose proof (four_symm_mix_is_cart_transformed K 0 (fadd K) (fmul K) (ess K bs) (ebf K bs) Mf Lf eHN eHT eHB
+                i j k l m1 q1 m2 q2 m3 q3 m4 q4) as H.
+  rewrite ess_length in H. unfold Beri in S2.
+  specialize (H S2 (sym8_to_cart S0) Hi Hj Hk Hl).
+  rewrite !eOf in H by assumption. rewrite !ermix_off in H by (unfold n in *; lia).
+  rewrite !ess_nth in H by assumption. cbn [sh_sph sh_T] in H.
+  unfold oidx, gidx. exact (H Hm1 Hq1 Hm2 Hq2 Hm3 Hq3 Hm4 Hq4).
+Qed.
+End EriAsm.
